@@ -389,6 +389,13 @@ func GenTx(t *rapid.T, p *Profile, pools *Pools, o TxOpts) *m.Tx {
 		tx.NoDesc = true
 	} else {
 		tx.Payee, tx.DescClass = GenDesc(t, p, pools)
+		if !p.off("descr.lead-blanks") && rapid.IntRange(0, 7).Draw(t, "dsep") == 0 {
+			seps := []string{"  ", "\t", " \t "}
+			if !p.off("descr.lead-unicode-blank") && !p.off("text.nonascii") {
+				seps = append(seps, " \u00a0", " \u3000", " \u3000 ")
+			}
+			tx.DSep = rapid.SampledFrom(seps).Draw(t, "dsepv")
+		}
 		if rapid.IntRange(0, 3).Draw(t, "hasnote") == 0 && !p.off("tx.pipe") {
 			tx.HasNote = true
 			notes := []string{"weekly", "note é", "", "2 items", "Rent: May"}
